@@ -532,16 +532,32 @@ type c12Machine struct {
 	forks, shadowBlocks, shadowTxs      int
 	shadowOK, shadowDue, shadowCompared int
 	zhBlocks, shadowEnded, forkSkipped  int
+	start                               int64
 }
 
 func newC12() pbt.Machine[blockOp] {
-	m := &c12Machine{n: mustNode()}
-	m.h = &hist{n: m.n, w: newWorld(), rich: 4, maxIdle: 60}
+	m := &c12Machine{}
 	m.cnt.skipped = map[string]int{}
 	return m
 }
 
+// build creates the node at the initial height named by the first operation.
+func (m *c12Machine) build(start int64) {
+	if start < 1 {
+		start = 1
+	}
+	n, err := chain.NewNode(nodeOpts, nil, start)
+	if err != nil {
+		panic(err)
+	}
+	m.n, m.start = n, start
+	m.h = &hist{n: m.n, w: newWorld(), rich: 4, maxIdle: 60}
+}
+
 func (m *c12Machine) Next(t *rapid.T) blockOp {
+	if m.n == nil {
+		return blockOp{Genesis: "default", Start: drawStart(t)}
+	}
 	op := m.h.nextBlock(t, 4)
 	if len(m.ops) > 3 {
 		switch rapid.IntRange(0, 9).Draw(t, "export") {
@@ -558,6 +574,12 @@ func (m *c12Machine) Next(t *rapid.T) blockOp {
 }
 
 func (m *c12Machine) Apply(op blockOp) error {
+	if m.n == nil {
+		m.build(op.Start)
+		if op.Genesis != "" {
+			return nil
+		}
+	}
 	for _, b := range expandIdle(op) {
 		if err := m.applyOne(b); err != nil {
 			return err
@@ -858,6 +880,12 @@ func (m *c12Machine) Finish() error {
 
 func (m *c12Machine) Classify() (bool, []string) {
 	var cl []string
+	if m.n == nil {
+		return false, nil
+	}
+	if m.start > 1 {
+		cl = append(cl, "chain-started-above-height-1")
+	}
 	w := m.h.w
 	if m.cnt.sectionsNonEmpty >= 5 {
 		cl = append(cl, "sections>=5")
